@@ -592,6 +592,9 @@ func (env *SpecEnv) call(e *SExpr) Val {
 		need(2)
 		v := env.eval(args[0])
 		t := env.resolveType(args[1].String())
+		if _, isStruct := t.Underlying().(*types.Struct); isStruct {
+			t = types.NewPointer(t) // ifaceval(x, Record) reads the *Record held by x
+		}
 		return scalar(v.F[1].S, t)
 	case "int", "int64", "uint64", "uint32", "uint16", "int32", "uint8", "uint":
 		need(1)
